@@ -20,22 +20,6 @@ set_option linter.unusedVariables false
 namespace Ariadne.C01
 open Ariadne Ariadne.Gql Ariadne.ResultTypes Ariadne.Util Ariadne.Pyd Ariadne.Triggers01 Ariadne.C01Plain
 
-def plainOpOK (env : ResultTypes.Env) (o : Operation) : Bool :=
-  match o.name, Validate.rootOf env.schema o with
-  | some n, some tn =>
-    !(o.dirs.any (·.name == Tables.mixinName))
-    && PlainOK env (pascal n) tn o.sid o.sel {}
-    && NoShadowedImport env (plainClasses env (pascal n) tn o.sel)
-    && decide (gfuel o.sel ≤ Triggers01.fuel)
-    && decide (vneed env tn o.sel + 1 ≤ execFuel)
-  | _, _ => false
-
-/-- the region of `C01_partial_plain` -/
-def PlainInput (inp : Input) : Prop :=
-  (inp.env.frags.isEmpty && schemaOK inp.env.schema && inp.ops.all (plainOpOK inp.env)) = true
-
-instance (inp : Input) : Decidable (PlainInput inp) := by unfold PlainInput; infer_instance
-
 theorem generate_op (env : ResultTypes.Env) (fuel : Nat) (o : Operation) (n : String) (marks : List Nat)
     (hn : o.name = some n) :
     generate env fuel (.op o) marks =
